@@ -35,9 +35,17 @@ def parseOpts (j : Json) : Except String Trace.Options := do
   for ow in (← getArr j "overwrites") do
     match (← ow.getArr?).toList with
     | [p, f] =>
-      let dtName ← getStr f "dt"
-      let some dt := simpleDataType dtName | throw s!"overwrite data type {dtName}"
-      o := o.overwrite (← p.getStr?) (.mk (← getStr f "name") dt (← getBool f "nullable") [])
+      -- `dt`: a name of the small leaf vocabulary, or a data type in the wire form of SchemaJson.lean (nested overwrite
+      -- fields: Struct / List / LargeList); `meta` (optional): the metadata of the overwrite field
+      let dt ← match (← getObj f "dt") with
+        | .str dtName => match simpleDataType dtName with
+          | some dt => pure dt
+          | none => throw s!"overwrite data type {dtName}"
+        | dj => dataTypeOfJson dj
+      let md ← match getOpt f "meta" with
+        | some m => metaOfJson m
+        | none => pure []
+      o := o.overwrite (← p.getStr?) (.mk (← getStr f "name") dt (← getBool f "nullable") md)
     | _ => throw "bad overwrite"
   pure o
 
